@@ -23,6 +23,43 @@ SELECTED_BY = {          # which rules the witness selectors of universe/u_ptree
 }
 
 
+def content_clause(db, R, kinds):
+    from ..bits import Space, Interp, St, Rec, Ptr, Val, outcomes, Unmodelled
+    hc = [f for f in db.order if f['q'].startswith(PT + 'basic_node<') and f['n'] == 'has_content']
+    rc = [f for f in db.order if f['q'].startswith(PT + 'basic_node<') and f['n'] == 'remove_content' and not f['params']]
+    if not hc or not rc:
+        R.broke('basic_node::has_content / remove_content not instantiated in the universe'); return
+    def it_():
+        sp = Space(); sp.var('x', 2); it = Interp(db, sp)
+        # internal::inputerator(): the default member initialisers of internal/inputerator.hpp (data = nullptr, byte 0, line 1, column 1)
+        it.construct_hook = lambda e, av=None, st=None: (((e.get('cq') or '') == T + 'internal::inputerator::inputerator' and not e.get('args')) if av is None
+                                                         else iter([(Rec({'data': Ptr('null', 0), 'byte': Val.const(0), 'line': Val.const(1), 'column': Val.const(1)}), st)]))
+        return sp, it
+    def node(b, e):
+        f = lambda p: Rec({'data': p, 'byte': Val.const(0), 'line': Val.const(1), 'column': Val.const(1)})
+        return Rec({'m_begin': f(b), 'm_end': f(e)})
+    def answer(this):
+        sp, it = it_(); st = St(sp.full()); st.env['this'] = this
+        out = set()
+        for k, v, s in outcomes(it, hc[0], st):
+            if k != 'return' or not isinstance(v, Val) or not v.is_const(): raise Unmodelled('has_content ends with %s %r' % (k, v))
+            out.add(bool(v.off))
+        return out
+    probs = []
+    try:
+        for name, b, e in (('an empty match', Ptr('cur', 0), Ptr('cur', 0)), ('two bytes', Ptr('cur', 0), Ptr('cur', 2)), ('an empty match at offset 3', Ptr('cur', 3), Ptr('cur', 3))):
+            if answer(node(b, e)) != {True}: probs.append('a node that spans %s (start and success were called) has no content according to has_content()' % name)
+            sp, it = it_(); st = St(sp.full()); st.env['this'] = node(b, e)
+            for k, v, s in outcomes(it, rc[0], st):
+                if k not in ('fall', 'return'): raise Unmodelled('remove_content ends with ' + k)
+                if answer(s.env['this']) != {False}: probs.append('after remove_content() a node that spanned %s still has content according to has_content()' % name)
+    except Unmodelled as ex:
+        R.broke('basic_node::has_content / remove_content: %s' % ex); return
+    kinds['content'] += 1
+    R.ob(ok=not probs, key='content')
+    for pmsg in sorted(set(probs)): R.violation('T-content', 'contrib/parse_tree.hpp::basic_node::has_content', pmsg, key=('C', pmsg))
+
+
 SUBS_EXCEPTIONS = {      # rules whose subs_t deliberately lists less than their match() calls (confirmed by reading; one reason each)
     T + 'raw_string': 'subs_t is empty_list on purpose (the alternative is left as a comment in the source): the only rules it calls are raw_string_open (no sub-rules) and its '
                       'own nested rule `content`, whose subs_t lists the close condition and the content rules, so a collecting frame exists wherever nodes can be collected; '
@@ -199,8 +236,11 @@ def run(tier):
                 R.broke(str(e)); continue
             R.ob(ok=not probs, key=fn['disp'])
             for p in probs: R.violation('T-transform', 'contrib/parse_tree.hpp::%s::transform' % cq[len(PT):], p, key=('X', cq, p))
+    # (C') T-content: what has_content() answers.  A node whose rule matched has content - also when the match is empty (store_content of an opt<> that matched
+    # nothing spans zero bytes, it is not a node without content) - and a node has none exactly after remove_content()
+    content_clause(db, R, kinds)
     R.cov['obligations_by_kind'] = dict(kinds)
-    for k, fl in (('hook', 100), ('handler', 45), ('parse', 3), ('transform', 3), ('forward', 60), ('forward-unwind', 4), ('entry', 40), ('entry-enabled', 30), ('subs', 100)):
+    for k, fl in (('hook', 100), ('handler', 45), ('parse', 3), ('transform', 3), ('forward', 60), ('forward-unwind', 4), ('entry', 40), ('entry-enabled', 30), ('subs', 100), ('content', 1)):
         if kinds.get(k, 0) < fl: R.broke('only %d %s obligations (floor %d)' % (kinds.get(k, 0), k, fl))
     R.assumptions = ['the tree-equals-derivation statement for whole runs is the composition of these clauses with C08 (balanced hooks) and C01/C02; it is not explored as a trace property',
                      'user-supplied node types and selectors with their own transform are outside the statement']
